@@ -106,6 +106,27 @@ Theorem C11_fold_literal_differs :
   forall fold_rel a c, fold_rel a c = true -> search fold_rel (Literal true [a]) [c].
 Proof. exact fold_literal_matches_variant. Qed.
 
+(* what a normalisation in front of the selection may drop: a starred item at either end of a concatenation (`.*foo`, `foo.*`)
+   never changes the answer of an unanchored search, for every tree, every input and every starred expression ... *)
+Theorem C11_unanchored_search_ignores_outer_stars :
+  forall fold_rel r rs l,
+  (search fold_rel (Concat (Star r :: rs)) l <-> search fold_rel (Concat rs) l) /\
+  (search fold_rel (Concat (rs ++ [Star r])) l <-> search fold_rel (Concat rs) l).
+Proof. intros fr r rs l. split; [apply search_drop_leading_star|apply search_drop_trailing_star]. Qed.
+Print Assumptions C11_unanchored_search_ignores_outer_stars.
+
+(* ... but an anchor between the star and the end of the pattern takes that away: `^.*foo` is "foo on the first line", `foo.*$`
+   "foo on the last line" (inputs "x\nfoo", "foo\nx"); only a dot that matches the newline makes them containment *)
+Example c11_anchored_any_is_not_containment :
+  let nf : rune -> rune -> bool := fun _ _ => false in
+  let foo := Literal false [102; 111; 111] in
+  ~ search nf (Concat [BeginText; Star AnyCharNotNL; foo]) [120; 10; 102; 111; 111] /\
+  ~ search nf (Concat [foo; Star AnyCharNotNL; EndText]) [102; 111; 111; 10; 120] /\
+  search nf foo [120; 10; 102; 111; 111] /\ search nf foo [102; 111; 111; 10; 120] /\
+  search nf (Concat [BeginText; Star AnyChar; foo]) [120; 10; 102; 111; 111] /\
+  search nf (Concat [foo; Star AnyChar; EndText]) [102; 111; 111; 10; 120].
+Proof. exact anchored_any_is_not_containment. Qed.
+
 (* non-vacuity: every path is selected for some tree, the hypotheses are satisfiable, and a matcher really runs *)
 Example c11_paths :
   gen_compileOptimized [102;111;111] (Literal false [102;111;111]) = Ok (Some (MContains [102;111;111])) /\
